@@ -1,22 +1,24 @@
 (* C03 - Stored configuration is the gNMI-sequential effect of acknowledged Sets.
-   Statements only; proofs live in Proofs/MergeProofs.v, Proofs/MergeRefute.v, Proofs/WildcardProofs.v.
+   Statements only; proofs live in Proofs/MergeProofs.v, PathProofs.v, PruneProofs.v, StoreProofs.v, CommitProofs.v,
+   CommitExample.v, MergeRefute.v, WildcardProofs.v.
 
-   What is proved for ALL inputs: the merge performed by reconcileCommit (AddDeleteChildren + applyChangeToConfig
-   over any stored map, any change map, any Go map iteration order) changes the live leaves exactly as one
-   gNMI request does on textual paths - an update sets its leaf, a delete removes the node and what lies strictly
-   beneath it at a path element boundary, nothing else changes - provided no update of the request lies beneath
-   a delete of the same request (C03_order_refuted shows that guard is needed); and a wildcard-free Get returns
-   exactly the live values at or beneath the query.
-   What is refuted with concrete witnesses on the faithful model (and reproduced on the implementation, see
-   findings/C03.jsonl): persistence of a value re-created beneath a deleted ancestor, overlapping delete/update
-   in one request.
-   NOT proved here (named so nobody reads more into it): the store write after the merge (store_write /
-   prune_path_map), histories, wildcard queries and the step-level abstraction are covered by the differential
-   and end-to-end checks only. *)
+   Proved for ALL inputs (repaired code, 3126412 / 6e6477b / 6c3f66e):
+   - C03_commit_refines: the live leaves a Get reads after reconcileCommit has merged a change map into ANY stored
+     map and the configuration store has written the result are exactly those of one gNMI request applied to the
+     leaves before: an update sets its leaf, a delete removes the node and what lies strictly beneath it at a path
+     element boundary, nothing else changes - whatever the Go map iteration orders.  There is no hypothesis about
+     stored tombstones: a value written beneath a path deleted earlier is there afterwards.
+   - C03_merge_refines / C03_order_independent: the same for the in-memory merge alone, and its independence of
+     the iteration order of both maps.
+   - C03_get_exact_literal, C03_siblings_unaffected, C03_children_below, C03_applied_separate.
+   Refuted with concrete witnesses (open finding F-14-C03): a request that deletes a path and updates it or
+   something beneath it (C03_order_refuted, C03_overlap_store_refuted, C03_same_path_refuted) - hence no_overlap.
+   NOT proved (covered by the differential and end-to-end checks only): that the store write re-establishes `clean`
+   (so no theorem over whole histories), wildcard queries, the abstraction of textual paths to element lists. *)
 From Coq Require Import List NArith Bool Permutation String.
 Local Open Scope string_scope.
 From OC Require Import Base.Bytes Model.Merge Model.CfgStore Model.Wildcard
-     Proofs.MergeProofs Proofs.MergeRefute Proofs.WildcardProofs.
+     Proofs.MergeProofs Proofs.PathProofs Proofs.CommitProofs Proofs.CommitExample Proofs.MergeRefute Proofs.WildcardProofs.
 Import ListNotations.
 Open Scope N_scope.
 Open Scope list_scope.
@@ -57,24 +59,65 @@ Theorem C03_children_below : forall a c r,
 Proof. exact child_below. Qed.
 Print Assumptions C03_children_below.
 
-(* ---- refutations (faithful model; signatures c03_recreate_under_deleted_ancestor, c03_delete_update_overlap) *)
-Theorem C03_recreate_refuted :
+(* ---- commit + store write: what Get reads afterwards.
+   proper_keys: no key is "" or "/";  clean M: no live stored value lies beneath a stored tombstone;
+   leaf_ok M ch: a live stored value is a leaf (no stored path and no path of the request lies beneath it);
+   fresh_index: the change values carry the transaction index, the stored values older ones *)
+Theorem C03_commit_refines : forall idx M ch,
+  keys_ok M -> nodup M -> proper_keys M -> clean M ->
+  keys_ok ch -> nodup ch -> proper_keys ch -> no_overlap ch ->
+  leaf_ok M ch -> fresh_index idx M ch ->
+  forall p, live (persist_commit M idx ch) p = spec_live_fun M ch p.
+Proof. exact commit_store_refines. Qed.
+Print Assumptions C03_commit_refines.
+
+(* the hypotheses are satisfiable by a stored map that holds tombstones, with a request re-creating values beneath them *)
+Theorem C03_commit_refines_inhabited :
+  keys_ok exM /\ nodup exM /\ proper_keys exM /\ clean exM /\ keys_ok exCh /\ nodup exCh /\ proper_keys exCh /\
+  no_overlap exCh /\ leaf_ok exM exCh /\ fresh_index 3 exM exCh /\
+  map_get (B "/a") exM = Some (mkPV (B "/a") [] true 2) /\
+  live (persist_commit exM 3 exCh) (B "/a/b") = Some (B "2") /\
+  live (persist_commit exM 3 exCh) (B "/l[k=2]/v") = Some (B "2") /\
+  live (persist_commit exM 3 exCh) (B "/a/c/d") = None /\
+  live (persist_commit exM 3 exCh) (B "/x") = None.
+Proof. exact commit_store_example. Qed.
+Print Assumptions C03_commit_refines_inhabited.
+
+(* re-creation beneath a deleted ancestor (formerly refuted, F-07c-C03): through whole Set cycles of the store
+   model, incl. the inline copies and a later status update, the value stays and the tombstone is gone *)
+Theorem C03_recreate_kept :
+  live (view_values r2) (B "/a/b") = None /\
   live (view_values r3) (B "/a/b") = Some (B "2") /\
-  map_get (B "/a/b") [upd "/x" "3" 4] = None /\ ~ cascaded (view_values r3) [upd "/x" "3" 4] (B "/a/b") /\
-  live (view_values r4) (B "/a/b") = None.
-Proof. exact recreate_refuted. Qed.
-Print Assumptions C03_recreate_refuted.
+  live (view_values r4) (B "/a/b") = Some (B "2") /\
+  live (view_values r5) (B "/a/b") = Some (B "2") /\
+  map_get (B "/a") (cs_map r3) = None.
+Proof. exact recreate_kept_example. Qed.
+Print Assumptions C03_recreate_kept.
 
-Theorem C03_recreate_list_refuted :
-  live (view_values q2) (B "/l[k=1]/v") = None /\ live (view_values q3) (B "/l[k=1]/v") = None.
-Proof. exact recreate_list_refuted. Qed.
-Print Assumptions C03_recreate_list_refuted.
+Theorem C03_recreate_list_kept :
+  live (view_values q2) (B "/l[k=1]/v") = None /\
+  live (view_values q4) (B "/l[k=1]/v") = Some (B "2") /\
+  live (view_values q4) (B "/m[k1=a][k2=c]/v") = Some (B "2") /\
+  live (view_values q4) (B "/m[k1=a][k2=b]/v") = None.
+Proof. exact recreate_list_kept_example. Qed.
+Print Assumptions C03_recreate_list_kept.
 
+(* the elements the repaired code scans are exactly the IsPathBelow ancestors *)
+Theorem C03_ancestors_are_below : forall x a, proper a ->
+  (In a (boundary_ancestors x) <-> is_path_below x a = true).
+Proof. exact ancestor_below. Qed.
+Print Assumptions C03_ancestors_are_below.
+
+(* ---- refutations (faithful model; signature c03_delete_update_overlap) *)
 Theorem C03_order_refuted :
   Permutation ov1 ov2 /\
   live (commit_merge 2 ov1 ovV) (B "/a/b") <> live (commit_merge 2 ov2 ovV) (B "/a/b").
 Proof. exact overlap_order_refuted. Qed.
 Print Assumptions C03_order_refuted.
+
+Theorem C03_overlap_store_refuted : live (persist_commit ovV 2 ov1) (B "/a/b") = None.
+Proof. exact overlap_store_refuted. Qed.
+Print Assumptions C03_overlap_store_refuted.
 
 Theorem C03_same_path_refuted :
   map_get (B "/x") (compute_change [(B "/x", B "2")] [B "/x"]) = Some (mkPV (B "/x") [] true 0).
